@@ -596,7 +596,9 @@ vector<Graph::NodeId> GlobalGraph::getAllInnerNodes() const
 
 void GlobalGraph::fillListOfLeaves_(const GlobalGraph::Node& startingNode, vector<GlobalGraph::Node>& foundLeaves, const GlobalGraph::Node& originNode, unsigned int maxRecursions) const
 {
-  const vector<Graph::NodeId> neighbors = getNeighbors(startingNode);
+  // each neighbour once (an undirected relation is listed as incoming and as outgoing)
+  const vector<Graph::NodeId> allNeighbors = getNeighbors(startingNode);
+  const set<Graph::NodeId> neighbors(allNeighbors.begin(), allNeighbors.end());
   if (neighbors.size() > 1)
   {
     if (maxRecursions > 0)
